@@ -26,6 +26,15 @@ inline std::vector<int> limits_of(int i, int d){
     if (i == 0) return std::vector<int>(); if (i >= 6) return std::vector<int>((size_t) d, 3); std::vector<int> r(d); for(int j=0;j<d;j++) r[j] = L[i][j < 2 ? j : 1]; return r;
 }
 
+// every loaded point of a local polynomial grid (canonical domain or the transform of the configuration is not needed: levels are read from the library's own 1-D cross-check) has its parents
+static bool swap_complete(const TasmanianSparseGrid &g){
+    int d = g.getNumDimensions(), n = g.getNumLoaded(); auto x = g.getLoadedPoints(); RefLocal R(g.getRule(), g.getOrder());
+    std::vector<double> a, b; if (g.isSetDomainTransfrom()) g.getDomainTransform(a, b);
+    std::set<std::vector<long>> have; std::vector<std::vector<long>> keys;
+    for(int i=0;i<n;i++){ std::vector<long> k((size_t) d); for(int j=0;j<d;j++){ double v = x[(size_t) i*d+j]; if (!a.empty()) v = to_canonical(v, a[(size_t) j], b[(size_t) j]); k[(size_t) j] = dy(v); } have.insert(k); keys.push_back(k); }
+    for(int i=0;i<n;i++) for(int j=0;j<d;j++) for(long q : R.parents(keys[(size_t) i][(size_t) j])){ auto c = keys[(size_t) i]; c[(size_t) j] = q; if (!have.count(c)) return false; }
+    return true;
+}
 static bool fresh_setcoef_allowed = false; // set by the explorer for the differential properties
 
 // reference state ----------------------------------------------------------------------------------
@@ -140,6 +149,7 @@ inline bool apply(TasmanianSparseGrid &g, const Op &op, Ref &r, ApplyInfo *info 
     }
     if (k == "update"){ // a depth, b type, e limits
         if (local || constr) return false;
+        if (g.getRule() == rule_customtabulated && op.a > 2) return false; // the table objects of the lattice hold 3 levels: a deeper update is documented to throw
         auto L = limits_of(op.e, d); ref_set_limits(r, L); if (info){ info->limits_passed = !L.empty(); info->limits_arg = L; }
         TypeDepth t = type_of(op.b); std::vector<int> w; if (op.d == 1){ w.assign(OneDimensionalMeta::isTypeCurved(t) ? 2*d : d, 1); w[0] = 2; if (OneDimensionalMeta::isTypeCurved(t)) for(int j=d;j<2*d;j++) w[j] = 0; }
         if (op.d == 2){ if (!OneDimensionalMeta::isTypeCurved(t)) return false; w.assign(2*d, 1); for(int j=d;j<2*d;j++) w[j] = -2; } // curved weights with negative sum: the non-lower selection path
@@ -159,6 +169,16 @@ inline bool apply(TasmanianSparseGrid &g, const Op &op, Ref &r, ApplyInfo *info 
         size_t n = (size_t) g.getNumPoints() * outs * (g.isFourier() ? 2 : 1); std::vector<double> c(n); for(size_t i=0;i<n;i++) c[i] = std::cos(0.7 * i + 0.1 + op.a) / (1.0 + 0.05 * i);
         { auto xl = g.getLoadedPoints(); for(size_t i=0;i+d<=xl.size();i+=d) r.stale.insert(Pt(xl.begin()+i, xl.begin()+i+d)); }
         g.setHierarchicalCoefficients(c); r.vals_valid = false; return true;
+    }
+    if (k == "swap"){ // C04 swap experiment (never part of an alphabet): affine values, a of the zero-coefficient nodes removed, a NEW nodes delivered one sample at a time
+        if (!g.isLocalPolynomial() || constr || outs == 0 || g.getNumLoaded() > 0 || g.getOrder() == 0) return false;
+        auto x0 = g.getNeededPoints(); auto v0 = model_values(1, x0, d, outs); g.loadNeededValues(v0); ref_supply(r, x0, v0, d, outs); r.model_kind = 1; int n = g.getNumLoaded(); if (n < op.a + 4) return false;
+        std::set<Pt> original; for(size_t i=0;i+d<=x0.size();i+=d) original.insert(Pt(x0.begin()+i, x0.begin()+i+d));
+        g.removePointsByHierarchicalCoefficient(n - op.a, -1); if (g.getNumLoaded() != n - op.a) return false;
+        if (!swap_complete(g)) return false; // the removal took an inner node and left its descendants: a grid with holes is outside what the routes promise (C01 exemption)
+        g.beginConstruction(); auto cand = g.getCandidateConstructionPoints(0.0, refine_classic); int added = 0;
+        for(size_t i=0; i+d<=cand.size() && added < op.a; i+=d){ Pt p(cand.begin()+i, cand.begin()+i+d); if (original.count(p)) continue; auto v = model_values(1, p, d, outs); g.loadConstructedPoints(p, v); ref_supply(r, p, v, d, outs); added++; }
+        return added == op.a && g.getNumLoaded() == n && swap_complete(g);
     }
     if (k == "clearlim"){ if (g.getLevelLimits().empty()) return false; g.clearLevelLimits(); r.limits.clear(); return true; }
     if (k == "begin"){ if (constr || outs == 0 || nonNestedGlobal(g)) return false; g.beginConstruction(); return true; }
